@@ -159,6 +159,7 @@ var preSyms = []sym{
 	{"AUTH(u1:p1)", func() *snref.Pkt { return snref.AuthPlain("u1", []byte("p1")) }},
 	{"AUTH(u2:p2)", func() *snref.Pkt { return snref.AuthPlain("u2", []byte("p2")) }},
 	{"AUTH(malformed)", func() *snref.Pkt { return &snref.Pkt{Type: snref.AUTH, Name: "PLAIN", Data: []byte("\x00only-two")} }},
+	{"AUTH(4-parts)", func() *snref.Pkt { return &snref.Pkt{Type: snref.AUTH, Name: "PLAIN", Data: []byte("\x00u1\x00p\x001")} }},
 	{"AUTH(unknown-method)", func() *snref.Pkt { return &snref.Pkt{Type: snref.AUTH, Name: "SCRAM", Data: []byte("\x00u\x00p")} }},
 	{"WILLTOPIC(w/t,q1,r)", func() *snref.Pkt { return snref.WillTopic("w/t", 1, true) }},
 	{"WILLTOPIC(empty)", func() *snref.Pkt { return &snref.Pkt{Type: snref.WILLTOPIC} }},
@@ -179,6 +180,10 @@ var preSyms = []sym{
 }
 
 var extraSyms = []sym{
+	{"AUTH(empty-user-pw)", func() *snref.Pkt { return &snref.Pkt{Type: snref.AUTH, Name: "PLAIN", Data: []byte("\x00\x00")} }},
+	{"AUTH(lowercase-method)", func() *snref.Pkt { return &snref.Pkt{Type: snref.AUTH, Name: "plain", Data: []byte("\x00u\x00p")} }},
+	{"WILLTOPIC(q2)", func() *snref.Pkt { return snref.WillTopic("w/2", 2, false) }},
+	{"WILLTOPIC(q0,r)", func() *snref.Pkt { return snref.WillTopic("w/0", 0, true) }},
 	{"UNSUBSCRIBE", func() *snref.Pkt { return snref.UnsubscribeName(14, "t/sub") }},
 	{"PUBREL", func() *snref.Pkt { return snref.MsgOnly(snref.PUBREL, 15) }},
 	{"REGACK", func() *snref.Pkt { return snref.Regack(1, 1, 0) }},
@@ -306,10 +311,10 @@ var wlConnectRandom = Workload{
 			seq = append(seq, pick("CONNECT", "CONNECT", "CONNECT(ka=0)"))
 		}
 		if auth || rng.Intn(4) == 0 {
-			seq = append(seq, pick("AUTH(u1:p1)", "AUTH(u1:p1)", "AUTH(u2:p2)", "AUTH(malformed)", "AUTH(unknown-method)"))
+			seq = append(seq, pick("AUTH(u1:p1)", "AUTH(u1:p1)", "AUTH(u2:p2)", "AUTH(malformed)", "AUTH(unknown-method)", "AUTH(4-parts)", "AUTH(empty-user-pw)", "AUTH(lowercase-method)"))
 		}
 		if will {
-			seq = append(seq, pick("WILLTOPIC(w/t,q1,r)", "WILLTOPIC(w/t,q1,r)", "WILLTOPIC(empty)", "WILLTOPIC(q3)"), pick("WILLMSG(bye)", "WILLMSG(bye)", "WILLMSG(empty)"))
+			seq = append(seq, pick("WILLTOPIC(w/t,q1,r)", "WILLTOPIC(q2)", "WILLTOPIC(q0,r)", "WILLTOPIC(empty)", "WILLTOPIC(q3)"), pick("WILLMSG(bye)", "WILLMSG(bye)", "WILLMSG(empty)"))
 		}
 		// perturbations: drop, duplicate, swap, insert random symbols
 		for m := rng.Intn(4); m > 0 && len(seq) > 0; m-- {
